@@ -238,8 +238,8 @@ def main(argv=None):
         violations.append('audit/' + name)
     for br in rep['bounded_results']:
         if br.get('violations'):
-            for v in br['violations'][:3]:
-                path = write_replay(prop, 'bounded__' + br['name'], [], rep, {'bounded_check': br['name'], 'witness': v})
+            for vi, v in enumerate(br['violations'][:3]):
+                path = write_replay(prop, 'bounded__%s__%d' % (br['name'][:60], vi), [], rep, {'bounded_check': br['name'], 'witness': v})
                 lines.append('VIOLATION property=%s replay=%s' % (prop, path))
                 violations.append('bounded/' + br['name'])
     status = 0
